@@ -25,19 +25,23 @@ func seamBases(ts string, full bool) []spec.Info {
 	rgb8 := spec.Info{W: 5, H: 6, SPP: 3, BA: 8, BS: 8, HB: 7, PI: "RGB"}
 	mono16 := spec.Info{W: 9, H: 7, SPP: 1, BA: 16, BS: 16, HB: 15, PI: "MONOCHROME2"}
 	mono12 := spec.Info{W: 8, H: 8, SPP: 1, BA: 16, BS: 12, HB: 11, PI: "MONOCHROME2"}
+	// colour-by-plane: RLE codes it natively, a codec that converts (or ignores) the layout
+	// still has to apply its length check to the frame it was handed
+	rgb8p := rgb8
+	rgb8p.Planar = 1
 	switch ts {
 	case "50":
-		return []spec.Info{mono8, rgb8}
+		return []spec.Info{mono8, rgb8, rgb8p}
 	case "51":
-		return []spec.Info{mono8, mono12}
+		return []spec.Info{mono8, mono12, rgb8p}
 	}
 	// every codec meets one- and three-component frames, an 8-bit and a 16-bit container,
 	// and a precision that does not fill its container (12 in 16)
 	rgb12 := spec.Info{W: 5, H: 6, SPP: 3, BA: 16, BS: 12, HB: 11, PI: "RGB"}
-	out := []spec.Info{mono8, mono16, rgb8, rgb12}
+	out := []spec.Info{mono8, mono16, rgb8, rgb12, rgb8p}
 	if ts == "rle" {
 		rgb12.BS, rgb12.HB = 16, 15
-		out = []spec.Info{mono8, mono16, rgb8, rgb12}
+		out = []spec.Info{mono8, mono16, rgb8, rgb12, rgb8p}
 	}
 	if full {
 		out = append(out, mono12, spec.Info{W: 7, H: 3, SPP: 3, BA: 8, BS: 5, HB: 4, PI: "RGB"}, spec.Info{W: 4, H: 4, SPP: 1, BA: 16, BS: 10, HB: 9, PI: "MONOCHROME2"})
